@@ -90,3 +90,36 @@ Print Assumptions C08_api_uwi_any_case.
 Print Assumptions C08_curves_raw.
 Print Assumptions C08_parameter_num.
 Print Assumptions C08_other_num.
+
+(* ---- num and the three SectionParser methods are the Python's -----------------------------------
+   num and build_item equal the definitions re-translated on every run from SectionParser.num /
+   curves / params / metadata (translators/funcs.py -> Gen/Funcs.v).  The external calls np.int64,
+   np.float64, np.isfinite are the operations of num_hval_ops (Proofs/FuncsPinNum.v: the model's reading
+   of int() / float() literal syntax, int64 range and float64 overflow - the oracle assumption of this
+   property); self.orders / self.default_order are what SectionParser.__init__ builds from the table entry
+   (parser_orders / parser_entry, Proofs/FuncsPinParser.v).  Some: strip_brackets never raises. *)
+Require Import Funcs FuncsPinStandardize FuncsPinWriter FuncsPinNum FuncsPinParser.
+Theorem C08_num_current : forall fstr fzero s,
+  num s = py_num (hval_ops fstr fzero) num_hval_ops s None.
+Proof. exact num_pin. Qed.
+Theorem C08_curves_current : forall fstr fzero v h,
+  py_parser_curves (hval_ops fstr fzero) (keys_of h) = Some (item_of (build_item v KCurves h)).
+Proof. exact curves_pin. Qed.
+Theorem C08_params_current : forall fstr fzero v h,
+  py_parser_params (hval_ops fstr fzero) num_hval_ops (keys_of h) = Some (item_of (build_item v KParameter h)).
+Proof. exact params_pin. Qed.
+Theorem C08_metadata_current : forall fstr fzero v k h,
+  k <> KCurves -> k <> KParameter ->
+  py_parser_metadata (hval_ops fstr fzero) num_hval_ops
+    (parser_orders (snd (parser_entry v k))) (order_str (fst (parser_entry v k))) (keys_of h)
+  = Some (item_of (build_item v k h)).
+Proof. exact metadata_pin. Qed.
+(* the hypotheses of C08_metadata_current are met: a 1.2 ~Well line whose value and description swap *)
+Example C08_metadata_current_nonvacuous :
+  KWell <> KCurves /\ KWell <> KParameter /\
+  fst (parser_entry V12 KWell) = DescrValue /\ parser_orders (snd (parser_entry V12 KWell)) <> [].
+Proof. repeat split; try discriminate. Qed.
+Print Assumptions C08_num_current.
+Print Assumptions C08_curves_current.
+Print Assumptions C08_params_current.
+Print Assumptions C08_metadata_current.
